@@ -95,7 +95,8 @@ Definition complete (s : st) (a : nat) : st :=
   mkSt (upd (acts s1) a (set_succs (acts s1 a) [])) (nacts s1) (now s1) (trace s1).
 
 (** the engine: the next model action to end is the started activity with the least start + duration (ties: least id;
-    ties only permute signals carrying the same date) *)
+    ties only permute signals carrying the same date).  The clock never goes back (Z.max is the identity on every
+    reachable state: a started activity ends at its start date + a non-negative duration). *)
 Definition fin_date (x : act) : option Z :=
   match a_state x, a_tstart x with STARTED, Some ts => Some (ts + a_dur x) | _, _ => None end.
 Fixpoint next_ev (f : nat -> act) (ids : list nat) : option (nat * Z) :=
@@ -113,7 +114,7 @@ Fixpoint drain (fuel : nat) (lim : option Z) (s : st) : st :=
   match fuel with
   | O => s
   | S f => match next_ev (acts s) (seq 0 (nacts s)) with
-           | Some (a, d) => if within lim d then drain f lim (complete (set_now s d) a) else s
+           | Some (a, d) => if within lim d then drain f lim (complete (set_now s (Z.max (now s) d)) a) else s
            | None => s
            end
   end.
